@@ -66,6 +66,13 @@ def rand_gtf_forest(r, explicit=False, ngenes=None):
         strand = r.choice("+-")
         for t in range(r.randrange(1, 4)):
             tid = "%sT%d" % (gid, t)
+            if explicit and r.random() < 0.15:
+                # an id of the shape '<other transcript or gene id>_<n>' (what a uniquified duplicate would be called)
+                others = sorted({x["transcript"] for x in recs if x["transcript"]} | {x["gene"] for x in recs})
+                if others:
+                    tid = "%s_%d" % (r.choice(others), r.choice([1, 1, 2]))
+                    if any(x["transcript"] == tid for x in recs):
+                        tid = "%sT%d" % (gid, t)
             pos = r.randrange(1, 3000)
             nex = r.randrange(0, 5)
             exons = []
